@@ -61,11 +61,18 @@ Inductive ores :=
 | OSkip                                  (* not for this object: rewound, stream good, no error *)
 | ORead (rest : list tok) (err : bool).  (* consumed; err = cvm::error was called on the way *)
 
+(* the type-specific data that follow a bias's configuration block, before an optional list of hills:
+   read_state_data_key(is, w); n numbers read with operator>> (colvar_grid::read_raw); a brace block
+   read with read_block (grid_parameters { ... }) *)
+Inductive delem := DKey (w : N) | DWords (n : nat) | DBlock (w : N).
+
 Record bias := mkB {
   b_kw : N;        (* state_keyword, e.g. "restraint" *)
   b_type : N;      (* bias_type, e.g. "harmonic" *)
   b_name : N;
-  b_kind : nat     (* selects the reader of the type-specific data *)
+  b_kind : nat;    (* 1: a list of hills follows the layout (metadynamics); otherwise nothing *)
+  b_layout : list delem   (* e.g. histogram: [DKey grid; DWords n]; metadynamics with grids:
+                             [DKey hills_energy; DBlock grid_parameters; DWords n; DKey hills_energy_gradients; ...] *)
 }.
 
 Section Reader.
@@ -204,12 +211,44 @@ Fixpoint read_hills (fuel : nat) (l : list tok) : list tok * bool :=
     end
   end.
 
-(* kind 0: no type-specific data (harmonic and other restraints with fixed parameters);
-   kind 1: metadynamics without grids: the list of hills *)
+(* n numbers, each read with operator>>: a brace or the end of the file is not a number *)
+Fixpoint take_words (n : nat) (l : list tok) : option (list tok) :=
+  match n with
+  | O => Some l
+  | S n' => match l with TW _ :: r => take_words n' r | _ => None end
+  end.
+
+(* keys, raw arrays and brace blocks in the order the bias reads them; None = the stream fails (the readers
+   call cvm::error on the way) *)
+Fixpoint read_layout (es : list delem) (l : list tok) : option (list tok) :=
+  match es with
+  | [] => Some l
+  | DKey w :: r => match l with
+                   | TW k :: l' => if k =? w then read_layout r l' else None
+                   | _ => None
+                   end
+  | DWords n :: r => match take_words n l with Some l' => read_layout r l' | None => None end
+  | DBlock w :: r => match l with
+                     | TW k :: TO :: l' => if k =? w then
+                                             match block_contents 1 l' with
+                                             | Some (_, l'') => read_layout r l''
+                                             | None => None
+                                             end
+                                           else None
+                     | _ => None
+                     end
+  end.
+
+(* the layout (nothing for harmonic and other restraints with fixed parameters; the grid of a histogram;
+   the two grids of metadynamics), then, kind 1, the list of hills *)
 Definition read_data_c (b : bias) (l : list tok) : option (list tok) * bool :=
-  match b_kind b with
-  | S O => let '(r, e) := read_hills (length l) l in (Some r, e)
-  | _ => (Some l, false)
+  match read_layout (b_layout b) l with
+  | None => (None, true)
+  | Some l1 =>
+    match b_kind b with
+    | S O => let '(r, e) := read_hills (length l1) l1 in (Some r, e)
+    | _ => (Some l1, false)
+    end
   end.
 
 Definition cv_ok_c (n : N) (conf : list tok) : bool :=
